@@ -229,11 +229,14 @@ MODELLED = {
 RENDER = ["Convergen.Bridge.Render"]
 TABLES = ["Convergen.Bridge.Tables"]
 NODES = ["Convergen.Bridge.Nodes"]
-DECISIONS = ["Convergen.Bridge.Decisions"]
+def DEC(*names):
+    """decision-skeleton bridge modules (one per group of Go functions, so that a change to one function breaks
+    the obligations of the properties that depend on it and no others)"""
+    return ["Convergen.Bridge.Dec." + n for n in names]
 
 PROPS = {
     "C01": {
-        "bridge": RENDER + TABLES + NODES + DECISIONS,
+        "bridge": RENDER + TABLES + NODES + DEC("Cast", "Match", "Hooks", "Function", "Util"),
         "extra_modules": ["Convergen.Props.C04", "Convergen.Props.C16"],
         "sweeps": [sweep_front("mixed", 160, 6000, cats=["body", "slice", "hook", "header", "errflow"], compile=True),
                    sweep_front("matching", 100, 3000, cats=["body", "slice"], compile=True),
@@ -256,7 +259,7 @@ PROPS = {
         "assumptions": ["Go's typing of the emitted fragment is judged by the compiler, not modelled (GoTyping is limited to castNode_sound and the slice decision)"],
     },
     "C02": {
-        "bridge": RENDER + NODES,
+        "bridge": RENDER + NODES + DEC("Cast", "Match"),
         "extra_modules": ["Convergen.Props.BuilderInv", "Convergen.Props.Cover", "Convergen.Props.Rooted"],
         "sweeps": [sweep_runtime(60, 1500), sweep_front("nesting", 120, 3000, cats=["body", "slice"]),
                    sweep_front("scoping", 80, 2000, cats=["body", "slice"])],
@@ -272,7 +275,7 @@ PROPS = {
         "assumptions": ["user-supplied getters, converters, String methods and hooks are side-effect-free and do not panic"],
     },
     "C03": {
-        "bridge": TABLES,
+        "bridge": TABLES + DEC("Function"),
         "sweeps": [sweep_front("layout", 150, 6000, cats=["exit", "missing-func"]),
                    sweep_front("mixed", 100, 3000, cats=["exit", "missing-func"]),
                    sweep_front("hooks", 60, 2000, cats=["exit", "missing-func"]),
@@ -305,7 +308,7 @@ PROPS = {
         "assumptions": ["only the two documented spellings of the pure convergen constraint are claimed (compound constraints are outside the stated quantifier)"],
     },
     "C04": {
-        "bridge": RENDER + TABLES + NODES + DECISIONS,
+        "bridge": RENDER + TABLES + NODES + DEC("Cast", "Util"),
         "sweeps": [sweep_front("matching", 150, 4000, cats=["body", "slice", "stderr"]),
                    sweep_front("plain", 60, 3000, cats=["body", "slice", "stderr"]),
                    sweep_front("mixed", 60, 2000, cats=["body", "slice", "stderr"])],
@@ -320,7 +323,7 @@ PROPS = {
         "assumptions": ["go/types relations are oracle tables (WF of the facts is assumed, not proved)"],
     },
     "C05": {
-        "bridge": RENDER + NODES,
+        "bridge": RENDER + NODES + DEC("Match"),
         "extra_modules": ["Convergen.Props.BuilderInv", "Convergen.Props.Cover"],
         "sweeps": [sweep_front("nesting", 120, 4000, cats=["body", "slice", "stderr"]),
                    sweep_front("plain", 80, 3000, cats=["body", "slice", "stderr"]),
@@ -336,7 +339,7 @@ PROPS = {
         "assumptions": ["go/types relations are oracle tables"],
     },
     "C06": {
-        "bridge": RENDER + TABLES + NODES + DECISIONS,
+        "bridge": RENDER + TABLES + NODES + DEC("Match", "Option", "Function"),
         "sweeps": [sweep_front("notations", 160, 4000, cats=["body", "slice", "stderr"]),
                    sweep_front("nesting", 80, 2000, cats=["body", "slice", "stderr"]),
                    sweep_front("casefold", 60, 2000, cats=["body", "slice", "stderr"]),
@@ -354,7 +357,7 @@ PROPS = {
         "assumptions": ["the order of the chain in the Go source is pinned by Bridge.precedence_eq"],
     },
     "C07": {
-        "bridge": RENDER + NODES + DECISIONS,
+        "bridge": RENDER + NODES + DEC("Cast", "Match", "Function"),
         "sweeps": [sweep_front("errors", 150, 4000, cats=["errflow", "body", "hook", "exit"]),
                    sweep_front("hooks", 80, 2000, cats=["errflow", "hook", "exit"]), sweep_runtime(50, 1500)],
         "rule": FRONT_RULE % "errors",
@@ -363,7 +366,7 @@ PROPS = {
         "assumptions": ["semantics of the emitted Go fragment (GoSem) is validated by the run-time driver, not proved about Go"],
     },
     "C08": {
-        "bridge": RENDER + DECISIONS,
+        "bridge": RENDER + DEC("Function"),
         "sweeps": [sweep_front("signatures", 140, 3000, cats=["header", "missing-func", "exit"]),
                    sweep_front("imports", 80, 2000, cats=["header", "missing-func", "exit"])],
         "rule": FRONT_RULE % "signatures",
@@ -383,7 +386,7 @@ PROPS = {
         "assumptions": ["distinct interface methods have distinct doc nodes and comment groups (go/ast): evaluated by the driver on every input (methodsApart)"],
     },
     "C10": {
-        "bridge": RENDER + DECISIONS,
+        "bridge": RENDER + DEC("Hooks"),
         "sweeps": [sweep_front("hooks", 200, 4000, cats=["hook", "exit", "errflow"]), sweep_runtime(50, 1500)],
         "rule": FRONT_RULE % "hooks",
         "explanation": "text order doc/signature/allocation/pre/assignments/post/return; call arguments dst, src, extra args in "
@@ -392,7 +395,7 @@ PROPS = {
         "assumptions": [],
     },
     "C12": {
-        "bridge": [] + DECISIONS,
+        "bridge": DEC("Run"),
         "extra_modules": ["Convergen.Props.C15"],
         "sweeps": [sweep_history],
         "rule": "for accepted base cases: the previous output, every truncation of it (quick: the first 130 offsets + 30 random; "
@@ -405,7 +408,7 @@ PROPS = {
         "assumptions": ["core (go list .. gofmt) is a function of the file system with the output path withheld (checked by the history sweep, not proved)"],
     },
     "C13": {
-        "bridge": [],
+        "bridge": DEC("Run"),
         "sweeps": [sweep_runner, sweep_front("imports", 60, 1500, cats=["body", "header", "exit", "stderr"])],
         "rule": RUNNER_RULE % "8 runs per accepted base case in fresh processes: relative / ./relative / absolute input path, cwd = module "
                 "root or package directory, GOFILE; byte equality of output, exit status and canonical stderr across the repetitions",
@@ -416,7 +419,7 @@ PROPS = {
                         "marker strings do not occur in user text"],
     },
     "C15": {
-        "bridge": ["Convergen.Bridge.Tables"] + DECISIONS,
+        "bridge": ["Convergen.Bridge.Tables"] + DEC("Run"),
         "sweeps": [sweep_runner],
         "rule": RUNNER_RULE % "accepted and rejected inputs x the 16 combinations of -dry/-print/-log/-out x path spellings (relative, "
                 "./relative, absolute, package directory, GOFILE) x output-path states (absent, stale file, missing directory, "
@@ -426,7 +429,7 @@ PROPS = {
         "assumptions": ["os.WriteFile either writes the output path or leaves it (a partially failing write is OS-defined)"],
     },
     "C18": {
-        "bridge": ["Convergen.Bridge.Tables"] + DECISIONS,
+        "bridge": ["Convergen.Bridge.Tables"] + DEC("Run"),
         "extra_modules": ["Convergen.Props.C15"],
         "sweeps": [sweep_runner],
         "rule": RUNNER_RULE % "accepted inputs x the 16 flag combinations x path spellings (relative, ./relative, absolute, package "
@@ -437,7 +440,7 @@ PROPS = {
         "assumptions": ["flag parsing is modelled for the four documented flags (the flag package itself is not)"],
     },
     "C14": {
-        "bridge": TABLES + DECISIONS,
+        "bridge": TABLES + DEC("Hooks", "Function", "Run"),
         "sweeps": [sweep_front("malformed", 200, 6000, cats=["exit", "stderr"]),
                    sweep_front("mixed", 80, 3000, cats=["exit", "stderr"]),
                    sweep_front("plain", 40, 1500, cats=["exit", "stderr"])],
@@ -447,7 +450,7 @@ PROPS = {
         "assumptions": [],
     },
     "C16": {
-        "bridge": RENDER + DECISIONS,
+        "bridge": RENDER + DEC("Cast"),
         "sweeps": [sweep_front("slices", 150, 4000, cats=["slice", "body"]), sweep_runtime(50, 1500)],
         "rule": FRONT_RULE % "slices",
         "explanation": "sliceToSlice decision = spec; no converting loop without :typecast; text of the three statements "
@@ -463,7 +466,7 @@ PROPS = {
         "assumptions": [],
     },
     "C19": {
-        "bridge": [],
+        "bridge": DEC("Option"),
         "sweeps": [sweep_api, sweep_front("casefold", 100, 3000, cats=["body", "slice"])],
         "rule": "operation sequences on one PatternMatcher / IdentMatcher / CompareFieldName with alternating case rule; "
                 "random over pattern/path pools (mixed case, dots, non-ASCII, RE2 classes/escapes/anchors/alternation) plus the "
